@@ -237,4 +237,18 @@ Proof.
   intros Hr. pose proof (inv_I2 c src p s Hr) as [_ CH RE WS _ _ _ _ _ _ _]. intuition eauto.
 Qed.
 
+(* C13, schedule clause: the payloads handed out are a function of how many were handed out *)
+Lemma map_inl_inj (a b : list R) : map (@inl R Z) a = map inl b -> a = b.
+Proof.
+  revert b; induction a as [|x t IH]; intros [|y u] H; simpl in H; try discriminate; [reflexivity|].
+  inversion H; subst. f_equal. auto.
+Qed.
+
+Theorem mt_output_schedule_free c1 c2 src1 src2 p1 p2 s1 s2 :
+  reachable f c1 src1 p1 s1 -> reachable f c2 src2 p2 s2 -> nr s1 = nr s2 -> out s1 = out s2.
+Proof.
+  intros H1 H2 E. destruct (mt_safety c1 src1 p1 s1 H1) as [O1 _]. destruct (mt_safety c2 src2 p2 s2 H2) as [O2 _].
+  apply map_inl_inj. rewrite O1, O2, E. reflexivity.
+Qed.
+
 End P.
